@@ -197,7 +197,7 @@ OTHER_MONTHS = [
     {"greenhouse": 1365.0, "methane_scp": 630.0, "cellulosic_sugar": 105.0},  # exactly 100 %
     {},                                            # nothing at all
 ]
-THRESHOLDS = (0, 10, 60, 100)
+THRESHOLDS = (0, 0.5, 10, 12.5, 60, 99.5, 100)      # incl. thresholds that are not a whole number of percent (legal values of the numeric override)
 
 _P = None
 
